@@ -14,3 +14,4 @@ import Golem.Props.C12
 import Golem.Props.C14
 import Golem.Props.C15
 import Golem.Props.C10
+import Golem.Props.C13
